@@ -1268,6 +1268,21 @@ func ruleChannelIdentity(c *Ctx, r4, r5 string) {
 			}
 		})
 		c.check(ok, r4, w.Short(a.Allocate)+": call option target receives this channel", posOf(w, a.Allocate), "*opt.ch = c", "the WithTunnelChannel target is not set to the channel the stream is created on")
+		// the peer reported to the caller (grpc.Peer call option, the authority given to per-RPC credentials) is the TUNNEL's
+		// peer: taken from the channel's own context, not from the context of the RPC being started
+		nPeer, okPeer := 0, true
+		allInstrs(a.Allocate, func(in ssa.Instruction) {
+			call, isC := in.(*ssa.Call)
+			if !isC || calleeName(call) != "google.golang.org/grpc/peer.FromContext" {
+				return
+			}
+			nPeer++
+			fr, _, isF := loadedField(origin(call.Call.Args[0]))
+			if !isF || a.Ch == nil || fr.Type != a.Ch.Obj().Name() {
+				okPeer = false
+			}
+		})
+		c.check(okPeer && nPeer >= 1, r4, w.Short(a.Allocate)+": the peer reported to callers is the tunnel's", posOf(w, a.Allocate), "peer.FromContext(<channel context field>)", "the peer handed to grpc.Peer targets and used for per-RPC credentials is not read from the channel's own context (the context of the RPC being started carries no peer, or — inside a handler that forwards — somebody else's): callers cannot identify the tunnel's peer, and the transport-security check runs against the wrong connection")
 		// ... and the target written there is the location the caller handed to WithTunnelChannel
 		if wtc := w.Func("WithTunnelChannel"); wtc != nil && len(wtc.Params) == 1 {
 			okT := false
